@@ -1,6 +1,7 @@
 package sim
 
 import (
+	"encoding/xml"
 	"fmt"
 	"sort"
 	"strings"
@@ -45,9 +46,25 @@ type Proxy struct {
 // Cond is the Conditions element.
 type Cond struct {
 	NotBefore, NotOnOrAfter *string
-	Restrictions            [][]string
-	OneTimeUse              bool
-	Proxy                   *Proxy
+	// Restrictions lists the Audience values of each AudienceRestriction. A value starting with ForeignMark stands
+	// for an element named Audience in a foreign namespace (not a SAML Audience; rendered, never part of any dump).
+	Restrictions [][]string
+	OneTimeUse   bool
+	Proxy        *Proxy
+	// Extra, when set, is rendered as a further Conditions element right after this one.
+	Extra *Cond
+}
+
+// ForeignMark prefixes an Audience value that is to be rendered as <ext:Audience xmlns:ext="urn:ext">.
+const ForeignMark = "\x00foreign:"
+
+func audienceNode(v string) *Node {
+	if strings.HasPrefix(v, ForeignMark) {
+		var b strings.Builder
+		xml.EscapeText(&b, []byte(strings.TrimPrefix(v, ForeignMark)))
+		return &Node{Raw: `<ext:Audience xmlns:ext="urn:ext">` + b.String() + `</ext:Audience>`}
+	}
+	return El(NSA, "Audience").T(v)
 }
 
 // Authn is the AuthnStatement.
@@ -185,25 +202,27 @@ func (a *Assertion) Node() *Node {
 		n.Add(sub)
 	}
 	if a.Cond != nil {
-		c := El(NSA, "Conditions").AOpt("NotBefore", a.Cond.NotBefore).AOpt("NotOnOrAfter", a.Cond.NotOnOrAfter)
-		for _, r := range a.Cond.Restrictions {
-			ar := El(NSA, "AudienceRestriction")
-			for _, au := range r {
-				ar.Add(El(NSA, "Audience").T(au))
+		for cd := a.Cond; cd != nil; cd = cd.Extra {
+			c := El(NSA, "Conditions").AOpt("NotBefore", cd.NotBefore).AOpt("NotOnOrAfter", cd.NotOnOrAfter)
+			for _, r := range cd.Restrictions {
+				ar := El(NSA, "AudienceRestriction")
+				for _, au := range r {
+					ar.Add(audienceNode(au))
+				}
+				c.Add(ar)
 			}
-			c.Add(ar)
-		}
-		if a.Cond.OneTimeUse {
-			c.Add(El(NSA, "OneTimeUse"))
-		}
-		if a.Cond.Proxy != nil {
-			pr := El(NSA, "ProxyRestriction").AOpt("Count", a.Cond.Proxy.Count)
-			for _, au := range a.Cond.Proxy.Audiences {
-				pr.Add(El(NSA, "Audience").T(au))
+			if cd.OneTimeUse {
+				c.Add(El(NSA, "OneTimeUse"))
 			}
-			c.Add(pr)
+			if cd.Proxy != nil {
+				pr := El(NSA, "ProxyRestriction").AOpt("Count", cd.Proxy.Count)
+				for _, au := range cd.Proxy.Audiences {
+					pr.Add(audienceNode(au))
+				}
+				c.Add(pr)
+			}
+			n.Add(c)
 		}
-		n.Add(c)
 	}
 	if a.Authn != nil {
 		as := El(NSA, "AuthnStatement").AOpt("AuthnInstant", a.Authn.AuthnInstant).AOpt("SessionIndex", a.Authn.SessionIndex).AOpt("SessionNotOnOrAfter", a.Authn.SessionNotOnOrAfter)
